@@ -13,13 +13,16 @@ locales write a decimal comma.  Four kinds of cases:
             and "no character is lost"
 
 The must-fold domain is decided by the generator from the statement alone (never by asking MathCAT):
-  * every maximal digit run is one mn, every separator its own token (visible separators: mo; spaces: mtext with a Unicode
-    space, mspace, or mo with a no-break space);
+  * every maximal digit run is one mn, every separator its own token (visible separators: mo or mtext — the Swiss apostrophe mostly
+    mtext, because <mo>'</mo> is read as a prime: open finding; spaces: mtext with a Unicode space, mspace, or mo with a no-break space);
   * a number that contains a comma is neither inside fences nor next to a comma of the context;
   * the number neither starts nor ends with a comma (a decimal comma there reads as a list comma);
   * a trailing decimal mark of the number is not the last token of the whole expression;
-  * when the context puts number-like tokens next to the number (list comma + other number, sentence-final punctuation) the
-    number must be a segment of the leftmost-longest reading of the whole run by the grammar (otherwise the split is ambiguous).
+  * when the context puts number-like tokens next to the number (list comma + other number) the number must be a segment of the
+    leftmost-longest reading of the whole run by the grammar (otherwise the split is ambiguous);
+  * the mark that ends the whole expression is sentence punctuation (the documented heuristic), never part of the number:
+    'y = 1 , 234 .' must canonicalize like <mn>1,234</mn><mo>.</mo>, with the tokens directly in math or in an explicit top-level mrow.
+Separator settings: language tags in lower, BCP-47, mixed and upper-language case, through Language and through LanguageAuto.
 """
 import os
 import random
@@ -899,7 +902,7 @@ def normal_forms(case):
                 t2 = [list(y) for y in tok]
                 t2[i] = ["mtext", NBSP]
                 out.append(_variant(case, tok=t2))
-            elif parts[i][0] in ("s", "m") and tag == "mtext" and x != "'":
+            elif parts[i][0] in ("s", "m") and parts[i][1] not in ALL_SPACES and tag == "mtext" and x != "'":
                 t2 = [list(y) for y in tok]
                 t2[i] = ["mo", x]               # the usual element for a visible separator
                 out.append(_variant(case, tok=t2))
